@@ -495,8 +495,8 @@ void ezc3d::c3d::updateHeader()
                 if (static_cast<size_t>(header().nbAnalogByFrame()) != 1)
                     _header->nbAnalogByFrame(1);
             } else {
-                if (static_cast<size_t>(parameters().group("ANALOG").parameter("RATE").valuesAsFloat().at(0) / pointRate)  != static_cast<size_t>(header().nbAnalogByFrame()))
-                    _header->nbAnalogByFrame(static_cast<size_t>(parameters().group("ANALOG").parameter("RATE").valuesAsFloat().at(0) / pointRate));
+                if (static_cast<size_t>(std::round(parameters().group("ANALOG").parameter("RATE").valuesAsFloat().at(0) / pointRate))  != static_cast<size_t>(header().nbAnalogByFrame()))
+                    _header->nbAnalogByFrame(static_cast<size_t>(std::round(parameters().group("ANALOG").parameter("RATE").valuesAsFloat().at(0) / pointRate)));
             }
         }
     }
